@@ -19,7 +19,7 @@ ASSUMPTIONS = [
 
 
 def write_cfg(path, depth, mode, prop, optsets, ticks=()):
-    lines = ["CONSTANTS", " MaxDepth = %d" % depth, ' Endpoints = {"a", "b", "c"}', " OptSets = {%s}" % ", ".join(map(str, optsets)), " MaxRpc = 2",
+    lines = ["CONSTANTS", " MaxDepth = %d" % depth, ' Endpoints = {"a", "b", "c"}', " OptSets = {%s}" % ", ".join(map(str, optsets)), " MaxRpc = 2", " MaxSever = 1",
              " Ticks = {%s}" % ", ".join(map(str, ticks)),
              "INIT Init", "NEXT Next", "CHECK_DEADLOCK FALSE"]
     if mode == "bfs":
